@@ -2,6 +2,7 @@ import Driver.Proto
 import Driver.Pure
 import Driver.Store
 import Ibx.Model.Smtp
+import Ibx.Model.MailArgs
 /-
   mode "smtp": one whole connection per line.
     run naming=.. da=.. acc=.. rej=.. ds=.. sto=.. dis=.. ro=.. maxrcpt=N maxbytes=N cap=N domain=<hex> rhost=<hex> ts=<hex>
@@ -9,6 +10,9 @@ import Ibx.Model.Smtp
         [rend=<eof|timeout|neterr>] [stall=<n>]      (C03End: how the input ends; a stall >= Timeout after n bytes; adds `bye=<hex|->`)
         [tls=<0|1>] [force=<0|1>]                    (config.TLSEnabled as NewServer leaves it / config.ForceTLS; `inp` is the
                                                       command stream: what the client sent in the clear followed by what it sent inside TLS)
+        `re=` / `args=` are OPTIONAL oracle tables (answers of Go's regexp engine for the MAIL arguments of the input); when a
+        field is absent the model computes the expression itself (Ibx.Model.MailArgs.mailRe / parseArgs) — the harness
+        no longer ships them, the tie of the two recognisers is harness/cmd/drive/c06_args.go.
     wire <same fields, `pre=<hex>` instead of `inp`> bufn=<n> inner=<hex|none>
         (C03Tls: `runWire`.  pre = the bytes sent in the clear; bufn = how many bytes behind the accepted STARTTLS line the old
          reader had buffered; inner = what the client sends inside TLS after a successful handshake, `none` = it never completes
@@ -69,14 +73,18 @@ def mkEnv (kv : KV) : Option Env := do
   pure {
     naming := naming, pol := Policy.process pol, maxRcpt := maxRcpt, maxBytes := maxBytes, domain := domain,
     remoteHost := rhost, tstamp := ts, ip := ipF,
-    mailRe := fun arg =>
-      match lookup reT (Bytes.toHex arg) with
-      | some ["1", a, p] => (match Bytes.ofHex a, Bytes.ofHex p with | some a, some p => some (a, p) | _, _ => none)
-      | _ => none,
-    parseArgs := fun params =>
-      match lookup argsT (Bytes.toHex params) with
-      | some [ps] => if ps == "none" then none else parsePairs ps
-      | _ => none,
+    mailRe :=
+      if (kv.get? "re").isNone then MailArgs.mailRe
+      else fun arg =>
+        match lookup reT (Bytes.toHex arg) with
+        | some ["1", a, p] => (match Bytes.ofHex a, Bytes.ofHex p with | some a, some p => some (a, p) | _, _ => none)
+        | _ => none,
+    parseArgs :=
+      if (kv.get? "args").isNone then MailArgs.parseArgs
+      else fun params =>
+        match lookup argsT (Bytes.toHex params) with
+        | some [ps] => if ps == "none" then none else parsePairs ps
+        | _ => none,
     hdr := fun block =>
       match lookup hdrT (Bytes.toHex block) with
       | some ["err"] => none
@@ -108,6 +116,7 @@ def linesOf (inp : Bytes) : Nat → List Bytes
     | some (l, rest) => l :: linesOf rest fuel
 
 def coverage (kv : KV) (inp : Bytes) : Option String :=
+  if (kv.get? "re").isNone then none else     -- no oracle tables: the model computes the expressions itself
   let reT := table ((kv.get? "re").getD "-")
   let argsT := table ((kv.get? "args").getD "-")
   let bad := (linesOf inp (inp.length + 1)).filterMap (fun l =>
@@ -118,6 +127,7 @@ def coverage (kv : KV) (inp : Bytes) : Option String :=
         | none => some s!"oracle-missing re {Bytes.toHex arg}"
         | some ["1", _, p] =>
           if p == "-" then none
+          else if (kv.get? "args").isNone then none
           else (match lookup argsT p with | none => some s!"oracle-missing args {p}" | some _ => none)
         | some _ => none
       else none
